@@ -14,6 +14,7 @@ mod util;
 mod buf2;
 mod pnm;
 mod obj;
+mod tex;
 
 use std::io::{BufRead, BufWriter, Write};
 
@@ -56,6 +57,7 @@ fn subsystem(name: &str) -> Option<(GenFn, ExecFn)> {
         "buf2" => (buf2::gen, buf2::exec),
         "pnm" => (pnm::gen, pnm::exec),
         "obj" => (obj::gen, obj::exec),
+        "tex" => (tex::gen, tex::exec),
         _ => return None,
     })
 }
@@ -87,9 +89,19 @@ fn main() {
                 }
                 let case: serde_json::Value =
                     serde_json::from_str(&line).expect("case json");
-                let rec = exec(&case);
-                serde_json::to_writer(&mut out, &rec).unwrap();
-                out.write_all(b"\n").unwrap();
+                // a case yields one record, or an array of records
+                match exec(&case) {
+                    serde_json::Value::Array(recs) => {
+                        for rec in recs {
+                            serde_json::to_writer(&mut out, &rec).unwrap();
+                            out.write_all(b"\n").unwrap();
+                        }
+                    }
+                    rec => {
+                        serde_json::to_writer(&mut out, &rec).unwrap();
+                        out.write_all(b"\n").unwrap();
+                    }
+                }
             }
         }
         m => {
